@@ -458,9 +458,24 @@ def _apply(ev, fn, x, y):
     from absint import Closure
     if isinstance(fn, Closure):
         return ev.truth(ev.call_closure(fn, [x, y]))
+    if isinstance(fn, dict) and fn.get("body") is not None:
+        return ev.truth(ev.call(fn, None, [x, y]))          # a plain function used as the predicate
     if fn is None:
         return ev.binop("==", x, y)
     raise Broken("algorithm called with a predicate the evaluator does not model")
+
+
+def _apply1(ev, fn, x):
+    from absint import Closure
+    if isinstance(fn, Closure):
+        return ev.call_closure(fn, [x])
+    if isinstance(fn, dict) and fn.get("body") is not None:
+        return ev.call(fn, None, [x])
+    raise Broken("algorithm called with a function the evaluator does not model")
+
+
+def _elems(a, b):
+    return [a.vec.items[i] for i in _rng(a, b)]
 
 
 def _rng(a, b):
@@ -519,7 +534,8 @@ def vector_hooks():
         else:
             out[k] = fn
     for name in ("length", "c_str", "data", "find", "rfind", "compare", "substr", "append"):
-        out["method:" + name] = (lambda name: (lambda ev, o, a: o.cxx(name, ev, a) if isinstance(o, StdStr) else (_ for _ in ()).throw(Broken("%s on an object that is not a string" % name))))(name)
+        out["method:" + name] = (lambda name: (lambda ev, o, a: o.cxx(name, ev, a) if isinstance(o, StdStr) else
+                                               (Ptr(o.items, 0) if name == "data" and isinstance(o, Vec) else (_ for _ in ()).throw(Broken("%s on an object that is not a string" % name)))))(name)
     out["ctor:std::basic_string<*"] = lambda ev, o, a: StdStr.construct(a)
     out["ctor:std::allocator<*"] = lambda ev, o, a: Sym.of("allocator")
     out["ctor:std::basic_stringstream<*"] = lambda ev, o, a: OStream()
@@ -570,6 +586,11 @@ def _vector_hooks():
         "std::next<*": lambda ev, o, a: a[0].arith("+", a[1] if len(a) > 1 else 1),
         "std::prev<*": lambda ev, o, a: a[0].arith("-", a[1] if len(a) > 1 else 1),
         "std::distance<*": lambda ev, o, a: a[1].pos - a[0].pos,
+        "std::any_of<*": lambda ev, o, a: any(ev.truth(_apply1(ev, a[2], x)) for x in _elems(a[0], a[1])),
+        "std::all_of<*": lambda ev, o, a: all(ev.truth(_apply1(ev, a[2], x)) for x in _elems(a[0], a[1])),
+        "std::none_of<*": lambda ev, o, a: not any(ev.truth(_apply1(ev, a[2], x)) for x in _elems(a[0], a[1])),
+        "std::count_if<*": lambda ev, o, a: sum(1 for x in _elems(a[0], a[1]) if ev.truth(_apply1(ev, a[2], x))),
+        "std::find_if<*": lambda ev, o, a: next((It(a[0].vec, i) for i in _rng(a[0], a[1]) if ev.truth(_apply1(ev, a[2], a[0].vec.items[i]))), a[1].copy_value()),
         "std::mismatch<*": _mismatch,
         "std::equal<*": _equal,
         "std::search<*": _search,
@@ -792,6 +813,15 @@ class CxxEvaluator(Evaluator):
             pass
         if k == "ref" and e.get("d") == "global" and e.get("q") not in self.globals and tinfo(e.get("t")) is None:
             return Sym.of(e.get("q"))
+        if k == "new":
+            if e.get("array"):
+                raise Broken("array new is not modelled")
+            if e.get("init") is None:
+                return self._default(e.get("t")) or Struct(e.get("t") or "?", {})
+            return self.eval(e["init"], env, this)           # a pointer to an object is the object
+        if k == "delete":
+            self.eval(e.get("e"), env, this)
+            return None
         if k == "ref" and e.get("d") == "func":
             f = self.prog.funcs.get(e.get("fid")) if self.prog else None
             if f is None:
@@ -1007,6 +1037,9 @@ class CxxEvaluator(Evaluator):
         if k == "ref":
             t = u.get("t", "")
             cur = env.get(u["id"])
+            if isinstance(cur, StdStr) and isinstance(val, (StdStr, Ptr)) and not t.rstrip().endswith("*"):
+                cur.assign_from(val)
+                return
             if hasattr(cur, "assign_from") and hasattr(val, "assign_from") and not t.rstrip().endswith("*") and type(cur) is type(val) and not isinstance(cur, (Ptr,)):
                 cur.assign_from(val)       # value semantics: the object keeps its identity
                 return
@@ -1021,6 +1054,10 @@ class CxxEvaluator(Evaluator):
             else:
                 if hasattr(b, "on_store"):
                     val = b.on_store(u["n"], val)
+                cur = getattr(b, u["n"], None)
+                if isinstance(cur, StdStr) and isinstance(val, (StdStr, Ptr)):
+                    cur.assign_from(val)          # assignment to a std::string member converts, the member stays a string
+                    return
                 setattr(b, u["n"], val)
                 self._alias_sync(b, u["n"], val)
             return
